@@ -112,6 +112,9 @@ pub enum Roots {
     /// kind 0: the root's 32 bytes straddle two adjacent entries (first `at` bytes end one entry, the rest start the next);
     /// kind 1: an entry equal to the root except for one bit of byte `at`; kind 2: the root's bytes in reverse order
     Near { kind: u8, at: usize },
+    /// a non-empty set without the message's root, delivered through a reader that reports a hard error after `fail_at`
+    /// bytes (the message itself arrives intact): whatever the call answers, it must not be acceptance
+    WithoutFailing { fail_at: usize },
 }
 
 impl Roots {
@@ -124,10 +127,14 @@ impl Roots {
             Roots::WindowPlus => json!("window_plus"),
             Roots::Raw(b) => json!({"raw": hex(b)}),
             Roots::Near { kind, at } => json!({"near": *kind, "at": *at as u64}),
+            Roots::WithoutFailing { fail_at } => json!({"without_failing_at": *fail_at as u64}),
         }
     }
     pub fn from_json(v: &Value) -> Roots {
         if v.is_object() {
+            if let Some(k) = v["without_failing_at"].as_u64() {
+                return Roots::WithoutFailing { fail_at: k as usize };
+            }
             if let Some(k) = v["near"].as_u64() {
                 return Roots::Near { kind: k as u8, at: v["at"].as_u64().unwrap_or(1) as usize };
             }
@@ -487,12 +494,16 @@ fn verdict(r: Result<color_eyre::Result<bool>, String>) -> (Verdict, String) {
 }
 
 fn call_verify(n: &NodeRt, via: u8, input: &[u8], roots: &[u8], plan: &ReadPlan, ctx: &mut Ctx) -> (Verdict, String) {
+    call_verify2(n, via, input, roots, plan, None, ctx)
+}
+
+fn call_verify2(n: &NodeRt, via: u8, input: &[u8], roots: &[u8], plan: &ReadPlan, roots_plan: Option<&ReadPlan>, ctx: &mut Ctx) -> (Verdict, String) {
     let mut rd = SimReader::new(input, plan.clone());
     let out = match via {
         0 => verdict(guarded(|| n.rln.verify(&mut rd))),
         1 => verdict(guarded(|| n.rln.verify_rln_proof(&mut rd))),
         _ => {
-            let mut rr = SimReader::new(roots, plan.clone());
+            let mut rr = SimReader::new(roots, roots_plan.cloned().unwrap_or_else(|| plan.clone()));
             verdict(guarded(|| n.rln.verify_with_roots(&mut rd, &mut rr)))
         }
     };
@@ -553,6 +564,7 @@ fn prove_via(
     signal: &[u8],
     path_override: Option<(Vec<Fr>, Vec<u8>)>,
     truncate: Option<usize>,
+    declared: Option<u64>,
     reader: &ReadPlan,
     writer: &WritePlan,
     ctx: &mut Ctx,
@@ -560,6 +572,10 @@ fn prove_via(
     let x = hash_to_field(signal);
     let request = {
         let mut b = enc_request(secret, index, limit, id, ext, signal);
+        if let Some(l) = declared {
+            // the declared signal length (8 bytes after the five fixed fields) says more than what follows
+            b[136..144].copy_from_slice(&l.to_le_bytes());
+        }
         if let Some(t) = truncate {
             b.truncate(t);
         }
@@ -744,7 +760,7 @@ pub fn run_trace(trace: &Trace, ctx: &mut Ctx) -> RunOutcome {
                 ctx.proofs += 1;
                 ctx.counters.inc(&format!("entry.{}", entry));
                 let root_then = n.model.root();
-                let r = guarded(|| prove_via(n, *entry, &m.secret, m.index as u64, &m.limit, id, ext, signal, None, None, reader, writer, ctx));
+                let r = guarded(|| prove_via(n, *entry, &m.secret, m.index as u64, &m.limit, id, ext, signal, None, None, None, reader, writer, ctx));
                 let faulty_io = reader.fail_at.is_some() || writer.fail_at.is_some() || writer.zero_at.is_some();
                 match r {
                     Err(p) => {
@@ -819,7 +835,7 @@ pub fn run_trace(trace: &Trace, ctx: &mut Ctx) -> RunOutcome {
                     Roots::Window => (enc_roots(&n.window.iter().copied().collect::<Vec<_>>()), n.window.contains(&m.root)),
                     Roots::Exact => (enc_roots(&[m.root]), true),
                     Roots::Empty => (Vec::new(), true),
-                    Roots::Without => (enc_roots(&[other(1), other(2), other(3)]), false),
+                    Roots::Without | Roots::WithoutFailing { .. } => (enc_roots(&[other(1), other(2), other(3)]), false),
                     Roots::WindowPlus => {
                         let mut v: Vec<Fr> = vec![other(4)];
                         v.extend(n.window.iter().copied());
@@ -881,8 +897,29 @@ pub fn run_trace(trace: &Trace, ctx: &mut Ctx) -> RunOutcome {
                 let semantically_null = input == honest_input
                     || matches!(alter, Alter::Append { .. })                      // trailing bytes after the declared signal are not part of the message
                     || (matches!(alter, Alter::Signal { .. } | Alter::DeclaredLen { .. }) && *via == 0);
-                let (v, d) = call_verify(n, *via, &input, &roots_bytes, reader, ctx);
+                let roots_plan = match roots {
+                    Roots::WithoutFailing { fail_at } => {
+                        let mut p = ReadPlan::clean();
+                        p.fail_at = Some(*fail_at);
+                        if *fail_at % 3 == 1 {
+                            p.chunk = 7;
+                        }
+                        Some(p)
+                    }
+                    _ => None,
+                };
+                let (v, d) = call_verify2(n, *via, &input, &roots_bytes, reader, roots_plan.as_ref(), ctx);
                 ctx.deliveries += 1;
+                if roots_plan.is_some() {
+                    ctx.counters.inc("reach.roots_reader_failed");
+                    if v == Verdict::Panic {
+                        viol!("C13", si, step, "panic_on_reader_error", d.clone());
+                    }
+                    if v == Verdict::True && !cond_root {
+                        viol!("C02", si, step, "accepted_with_wrong_root", format!("via {via} roots {}: the root set could not be read completely and does not contain the message's root, yet the message was accepted", roots.to_json()));
+                    }
+                    continue;
+                }
                 ctx.counters.inc(&format!("alter.{}", alter.kind()));
                 ctx.counters.inc(&format!("via.{}", via));
                 // proof bytes are random (blinding from thread_rng): whether an altered proof fails to decode
@@ -1053,12 +1090,20 @@ pub fn run_trace(trace: &Trace, ctx: &mut Ctx) -> RunOutcome {
                     path_override = Some((p, d));
                 }
                 let full_len = 32 * 4 + 16 + signal.len();
-                let torn = *truncate >= 0 && (*truncate as usize) < full_len && *entry <= 1 && *path_len < 0 && *dir_tweak < 0;
+                // truncate <= -2 selects a declared signal length larger than the signal that follows (entries reading the request)
+                let declared: Option<u64> = if *truncate <= -2 && *entry <= 1 && *path_len < 0 && *dir_tweak < 0 {
+                    let sl = signal.len() as u64;
+                    let table = [sl + 1, sl + 2, 1 << 16, 1 << 32, 1 << 63, u64::MAX, u64::MAX - 1, u64::MAX - 100, u64::MAX - 167, u64::MAX - 168, (1 << 63) - 1, u64::MAX - 143, u64::MAX - 144];
+                    Some(table[((-2 - *truncate) as usize) % table.len()])
+                } else {
+                    None
+                };
+                let torn = (*truncate >= 0 && (*truncate as usize) < full_len && *entry <= 1 && *path_len < 0 && *dir_tweak < 0) || declared.is_some();
                 let shape_ok = *path_len < 0 && *dir_tweak < 0 && !torn;
                 let satisfiable = in_tree && range_ok && leaf_ok && shape_ok;
                 let trunc = if *truncate >= 0 { Some(*truncate as usize) } else { None };
                 ctx.counters.inc(if satisfiable { "prove_requests_satisfiable" } else { "prove_requests_unsatisfiable" });
-                let r = guarded(|| prove_via(n, *entry, secret, *index, limit, id, ext, signal, path_override.clone(), trunc, reader, writer, ctx));
+                let r = guarded(|| prove_via(n, *entry, secret, *index, limit, id, ext, signal, path_override.clone(), trunc, declared, reader, writer, ctx));
                 match r {
                     Err(p) => {
                         viol!("C12", si, step, "prove_panic", format!("entry {entry}: {p}"));
